@@ -344,8 +344,11 @@ pub fn run(ctx: &Ctx) -> (Acc, Report) {
         if !c.big {
             framings.push(Framing::Bytes1);
         }
-        for f in &framings {
-            let id = || format!("{}/{f:?}", c.id);
+        // every framing is sent with its Content-Length header (the wire length, what the SDKs send) and - the one-frame and
+        // the cut-at-the-fault framing - also without one (HTTP/2, or HTTP/1.1 chunked transfer: the header is not signed)
+        let with_cl: Vec<(Framing, bool)> = framings.iter().flat_map(|f| if matches!(f, Framing::Bytes1) { vec![(f.clone(), true)] } else { vec![(f.clone(), true), (f.clone(), false)] }).collect();
+        for (f, has_cl) in &with_cl {
+            let id = || format!("{}/{f:?}{}", c.id, if *has_cl { "" } else { "/no-content-length" });
             if !a.selected(&id) {
                 continue;
             }
@@ -353,7 +356,17 @@ pub fn run(ctx: &Ctx) -> (Acc, Report) {
             a.count(&format!("faults_injected:{}", c.kind), 1);
             let cfg = SvcCfg::with_auth();
             let (svc, log) = cfg.build();
-            let out = call(&svc, &c.req, body_from_steps(frames(&c.body, f)));
+            let req_no_cl;
+            let the_req = if *has_cl {
+                &c.req
+            } else {
+                let mut r = c.req.clone();
+                r.headers.retain(|(n, _)| !n.eq_ignore_ascii_case("content-length"));
+                req_no_cl = r;
+                a.count("uploads_sent_without_a_content_length_header", 1);
+                &req_no_cl
+            };
+            let out = call(&svc, the_req, body_from_steps(frames(&c.body, f)));
             let calls = backend_calls(&log);
             a.nontrivial(fnv(id().as_bytes()));
             if c.declared.is_none() {
@@ -400,7 +413,7 @@ pub fn run(ctx: &Ctx) -> (Acc, Report) {
     });
     let rep = Report {
         level: "fault_enumeration",
-        rule: format!("{n_cases} faulty uploads x framings {{one frame, cut exactly at the fault, 1-byte frames}}: payloads of 0/1/5/12/60/300/66560 bytes in 0-6 chunks, data that looks like chunk headers and final chunks among them (thorough: also 40 chunks of 16 bytes, 4 of 1 KiB, and all 32 ways of cutting a 6-byte payload containing CR LF 0 ; into chunks), encoded by the reference encoder; single faults at every position: bit flips (every bit of every byte for the small uploads; bits 0 and 5 of every header byte and a stride of data bytes for the 64 KiB one), truncation at every offset, delete/duplicate/swap of each chunk, splice of the same-index chunk of a request for another key and for another date, re-signing against the wrong predecessor, signature field shortened to a prefix / lengthened / upper-cased, resizing, garbage after the final chunk, wrong/absent declared decoded length. Oracle: reference decoder of the faulty bytes; observed at the backend's body stream. Distinct by (fault, framing)."),
+        rule: format!("{n_cases} faulty uploads x framings {{one frame, cut exactly at the fault, 1-byte frames; the first two also without a Content-Length header}}: payloads of 0/1/5/12/60/300/66560 bytes in 0-6 chunks, data that looks like chunk headers and final chunks among them (thorough: also 40 chunks of 16 bytes, 4 of 1 KiB, and all 32 ways of cutting a 6-byte payload containing CR LF 0 ; into chunks), encoded by the reference encoder; single faults at every position: bit flips (every bit of every byte for the small uploads; bits 0 and 5 of every header byte and a stride of data bytes for the 64 KiB one), truncation at every offset, delete/duplicate/swap of each chunk, splice of the same-index chunk of a request for another key and for another date, re-signing against the wrong predecessor, signature field shortened to a prefix / lengthened / upper-cased, resizing, garbage after the final chunk, wrong/absent declared decoded length. Oracle: reference decoder of the faulty bytes; observed at the backend's body stream. Distinct by (fault, framing)."),
         exhaustive: true,
         extra: json!({"fault_cases": n_cases}),
         assumptions: vec!["reference encoder validated against the AWS documentation example (seed and all three chunk signatures) at start-up".into(), "HMAC/SHA collisions out of scope".into()],
